@@ -68,6 +68,7 @@ class AddedDiagLinearOperator(SumLinearOperator):
         self._precond_lt = None
         self._precond_logdet_cache = None
         self._q_cache = None
+        self._q_cache_max_iter = None  # max_preconditioner_size the cache was built with
         self._r_cache = None
 
     def _matmul(
@@ -121,8 +122,8 @@ class AddedDiagLinearOperator(SumLinearOperator):
         #
         # Through woodbury, (L L^T + D)^{-1} reduces down to (D^{-1} - D^{-1/2} Q Q^T D^{-1/2})
         # Through matrix determinant lemma, log |L L^T + D| reduces down to 2 log |R|
-        if self._q_cache is None:
-            max_iter = settings.max_preconditioner_size.value()
+        max_iter = settings.max_preconditioner_size.value()
+        if self._q_cache is None or self._q_cache_max_iter != max_iter:
             self._piv_chol_self = self._linear_op.pivoted_cholesky(rank=max_iter)
             if torch.any(torch.isnan(self._piv_chol_self)).item():
                 warnings.warn(
@@ -131,6 +132,7 @@ class AddedDiagLinearOperator(SumLinearOperator):
                 )
                 return None, None, None
             self._init_cache()
+            self._q_cache_max_iter = max_iter
 
         # NOTE: We cannot memoize this precondition closure as it causes a memory leak
         def precondition_closure(tensor):
